@@ -951,6 +951,14 @@ impl Recv {
             // The receive half may have just ended: no further PUSH_PROMISE
             // can arrive, so a task waiting for one has to be told (there
             // is no `RecvStream` left that would notice).
+            #[cfg(feature = "verif-hooks")]
+            crate::verif::ev("recv.end_unobserved", || {
+                vec![
+                    stream.verif_serial,
+                    u32::from(stream.id) as i64,
+                    stream.state.is_recv_end_stream() as i64,
+                ]
+            });
             if stream.state.is_recv_end_stream() {
                 stream.notify_push();
             }
